@@ -140,6 +140,7 @@ type VC struct {
 	heldOnEntry map[string]bool
 	lockChecksOff bool
 	nquant int
+	lockedSt *State // state right after the latest lock acquisition (for locked(...))
 	lineTags []int
 	globalFact bool
 	ancestors map[int]map[int]bool
